@@ -213,7 +213,7 @@ func (c *Client) Upload(_, name string, src io.Reader) error {
 	// If found, update the image ID
 	res := c.db.
 		Where(Tag{Repository: repo, Tag: tag}).
-		Assign(Tag{ImageID: imageID}).
+		Assign(map[string]interface{}{"image_id": imageID}). // a map, not a struct: gorm skips zero-valued struct fields (empty content)
 		FirstOrCreate(&gormTag)
 
 	if res.Error != nil {
